@@ -36,6 +36,15 @@ impl fmt::Display for Expr {
     }
 }
 
+/// What one evaluation remembers: the symbols whose definitions are being evaluated right now
+/// (definitions referring to each other end in an error) and the values of the symbols it has
+/// evaluated already (a symbol used many times is evaluated once)
+#[derive(Default)]
+struct Evaluation {
+    names: Vec<String>,
+    known: std::collections::HashMap<String, i64>,
+}
+
 impl Expr {
     pub fn binary(left: Expr, operator: BinaryOperator, right: Expr) -> Expr {
         Expr::Binary(Box::new(BinaryExpr {
@@ -110,27 +119,32 @@ impl Expr {
     }
 
     pub fn run(&self, constants: &dyn Context) -> Result<i64, ExprRunError> {
-        self.run_nested(constants, &mut vec![])
+        self.run_nested(constants, &mut Evaluation::default())
     }
 
-    /// Evaluates the expression; `open` holds the symbols whose definitions are being
-    /// evaluated right now, so that definitions referring to each other end in an error.
+    /// Evaluates the expression within the evaluation `open`
     fn run_nested(
         &self,
         constants: &dyn Context,
-        open: &mut Vec<String>,
+        open: &mut Evaluation,
     ) -> Result<i64, ExprRunError> {
         match self {
             Expr::Ident(ident) => match constants.get_expr(ident) {
                 Some(Expr::Const(address)) => Ok(address),
                 Some(expr) => {
                     let name = ident.to_lowercase();
-                    if open.contains(&name) {
+                    if let Some(value) = open.known.get(&name) {
+                        return Ok(*value);
+                    }
+                    if open.names.contains(&name) {
                         return Err(ExprRunError::RecursiveDefinition(ident.clone()));
                     }
-                    open.push(name);
+                    open.names.push(name);
                     let value = expr.run_nested(constants, open);
-                    open.pop();
+                    let name = open.names.pop();
+                    if let (Ok(value), Some(name)) = (&value, name) {
+                        open.known.insert(name, *value);
+                    }
                     value
                 }
                 None => Err(ExprRunError::MissingIdentifier(ident.clone())),
